@@ -17,8 +17,9 @@ ASSUMPTIONS = ['whole-message round trips: bounded native sweep (family x chunk 
 
 
 def build(reg):
-    T = C03.build(reg)
-    T += [c for c in C06.build(reg) if c.qualname.startswith('build_http')]
+    T6 = [c for c in C06.build(reg) if c.qualname.startswith('build_http')]
+    T = C03.build(reg)          # after C06: the parser class table and the verified parse() contract of C03 are the ones in force
+    T += T6
     reg.contract(CH, 'ChunkParser.to_chunks', params={'raw': 'bytes', 'chunk_size': 'int'}, result='bytes', assumed=True,
                  modifies=[], ensures=[('terminated', "result.endswith(b'0\\r\\n\\r\\n')"),
                                        ('empty', "len(raw) == 0 ==> result == b'0\\r\\n\\r\\n'")], raises={},
@@ -116,6 +117,50 @@ def bounded_checks(reg, tier, seed):
                 dec = gzip.decompress(r.body) if enc else r.body
                 if not r.is_complete or dec != b'NEW BODY' or r.is_chunked_encoded != te:
                     bad.append({'what': 'update_body + rebuild does not yield the new body', 'chunked': te, 'gzip': bool(enc)})
+    # header names are case-insensitive: every spelling of the two framing fields must survive a rebuild
+    # as exactly one framing field, and the rebuilt message must decode to the same body
+    def names(raw):
+        head = raw.split(b'\r\n\r\n', 1)[0].split(b'\r\n')[1:]
+        return sorted(l.split(b':', 1)[0].lower() for l in head)
+    for spell_te, spell_cl in ((b'Transfer-Encoding', b'Content-Length'), (b'transfer-encoding', b'content-length'),
+                               (b'TRANSFER-ENCODING', b'CONTENT-LENGTH'), (b'Transfer-encoding', b'Content-length')):
+        for body in (b'', b'hello', bytes(range(256))):
+            for te in (False, True):
+                framing = (spell_te + b': chunked\r\n\r\n' + ChunkParser.to_chunks(body, 100)) if te else \
+                    (spell_cl + b': %d\r\n\r\n' % len(body) + body)
+                for kind, start in (('request', b'POST /u HTTP/1.1\r\nHost: h\r\n'), ('response', b'HTTP/1.1 200 OK\r\nServer: s\r\n')):
+                    wire = start + framing
+                    p = HttpParser.request(wire) if kind == 'request' else HttpParser.response(wire)
+                    out = p.build() if kind == 'request' else p.build_response()
+                    n += 1
+                    q = HttpParser.request(out) if kind == 'request' else HttpParser.response(out)
+                    want = names(wire)
+                    if names(out) != want or not q.is_complete or (q.body or b'') != body or q.is_chunked_encoded != te:
+                        bad.append({'what': 'rebuild of a parsed %s changes its header fields or body' % kind, 'chunked': te,
+                                    'spelling': (spell_te if te else spell_cl).decode(), 'body_len': len(body),
+                                    'fields_in': repr(want), 'fields_out': repr(names(out))})
+                for builder in ('build_http_request', 'build_http_response'):
+                    hs = {spell_te: b'chunked'} if te else {spell_cl: b'%d' % len(body)}
+                    payload = ChunkParser.to_chunks(body, 100) if te else body
+                    out = build_http_request(b'POST', b'/', headers=dict(hs), body=payload, no_ua=True) if builder == 'build_http_request' \
+                        else build_http_response(200, reason=b'OK', headers=dict(hs), body=payload)
+                    n += 1
+                    fr = [x for x in names(out) if x in (b'content-length', b'transfer-encoding')]
+                    if fr != ([b'transfer-encoding'] if te else [b'content-length']) and not (builder == 'build_http_request' and not te and not body):
+                        bad.append({'what': '%s emits framing fields %r for headers %r' % (builder, fr, hs), 'body_len': len(body)})
     return [{'name': 'native codec round trips (chunk encode/decode vs reference, parse(build), build(parse), update_body)',
              'bounded': True, 'bound': '%d bodies x chunk sizes, 3 header maps x 4 bodies x 3 methods / 3 status codes' % len(bodies),
              'cases': n, 'violations': bad[:3]}, parser_sweep.sweep(tier, seed)]
+
+
+CROSSCHECK = C03.CROSSCHECK + C06.CROSSCHECK + ['HttpParser._get_body_or_chunks']
+
+
+def crosscheck_gens(reg):
+    from . import C03
+    return C03.crosscheck_gens(reg)
+
+
+def lemmas(reg, ex):
+    from . import C06
+    return C06.lemmas(reg, ex, prop='C15')
